@@ -145,3 +145,131 @@ pub fn rss_mb() -> u64 {
         .map(|pages| pages * 4096 / (1024 * 1024))
         .unwrap_or(0)
 }
+
+// ---------------------------------------------------------------------------
+// Crash guard: a seeded or genuine defect can make the subject abort the
+// process (double panic during unwinding, `unsafe precondition violated`,
+// segmentation fault). Every execution first notes what it is about to run in
+// a per-thread buffer; the signal handler dumps that buffer as a replay file,
+// prints the VIOLATION line and exits 1. An abort while the process is close
+// to its memory cap is reported as a machinery failure instead.
+// ---------------------------------------------------------------------------
+
+const NOTE_CAP: usize = 16 * 1024;
+
+struct Note {
+    buf: [u8; NOTE_CAP],
+    len: usize,
+}
+
+thread_local! {
+    static NOTE: std::cell::UnsafeCell<Note> = const { std::cell::UnsafeCell::new(Note { buf: [0; NOTE_CAP], len: 0 }) };
+}
+
+static mut CRASH_PATH: [u8; 512] = [0; 512];
+static mut CRASH_LINE: [u8; 768] = [0; 768];
+static mut CRASH_LINE_LEN: usize = 0;
+static CRASH_ARMED: std::sync::atomic::AtomicBool = std::sync::atomic::AtomicBool::new(false);
+
+/// Records the replay artefact of the execution that is about to run on this thread.
+pub fn crash_note(json: &str) {
+    if !CRASH_ARMED.load(std::sync::atomic::Ordering::Relaxed) {
+        return;
+    }
+    NOTE.with(|n| {
+        // SAFETY: only this thread (and its signal handler) touches the cell.
+        let n = unsafe { &mut *n.get() };
+        let b = json.as_bytes();
+        let l = b.len().min(NOTE_CAP);
+        n.buf[..l].copy_from_slice(&b[..l]);
+        n.len = l;
+    });
+}
+
+extern "C" fn crash_handler(sig: libc::c_int) {
+    // SAFETY: best-effort crash reporting; only raw syscalls and pre-rendered buffers.
+    unsafe {
+        static FIRST: std::sync::atomic::AtomicBool = std::sync::atomic::AtomicBool::new(false);
+        if FIRST.swap(true, std::sync::atomic::Ordering::SeqCst) {
+            // another thread is already reporting: wait for it to exit the process
+            loop {
+                libc::pause();
+            }
+        }
+        let rss = {
+            let fd = libc::open(b"/proc/self/statm\0".as_ptr() as *const libc::c_char, libc::O_RDONLY);
+            let mut pages: u64 = 0;
+            if fd >= 0 {
+                let mut b = [0u8; 128];
+                let n = libc::read(fd, b.as_mut_ptr() as *mut libc::c_void, 127);
+                libc::close(fd);
+                let mut i = 0usize;
+                while i < n.max(0) as usize && b[i] != b' ' {
+                    i += 1;
+                }
+                i += 1;
+                while i < n.max(0) as usize && b[i] >= b'0' && b[i] <= b'9' {
+                    pages = pages * 10 + (b[i] - b'0') as u64;
+                    i += 1;
+                }
+            }
+            pages * 4096 / (1024 * 1024)
+        };
+        if rss > 30_000 {
+            let m = b"MACHINERY-ERROR: aborted while close to the memory cap (not a verdict)\n";
+            libc::write(2, m.as_ptr() as *const libc::c_void, m.len());
+            libc::_exit(3);
+        }
+        let path = std::ptr::addr_of!(CRASH_PATH) as *const libc::c_char;
+        let fd = libc::open(path, libc::O_WRONLY | libc::O_CREAT | libc::O_TRUNC, 0o644);
+        if fd >= 0 {
+            NOTE.with(|n| {
+                let n = &*n.get();
+                libc::write(fd, n.buf.as_ptr() as *const libc::c_void, n.len);
+            });
+            libc::close(fd);
+        }
+        let head: &[u8] = if sig == libc::SIGSEGV { b"# the subject crashed with SIGSEGV inside an explored execution\n" } else { b"# the subject aborted the process (double panic / failed unsafe precondition) inside an explored execution\n" };
+        libc::write(1, head.as_ptr() as *const libc::c_void, head.len());
+        let line = std::ptr::addr_of!(CRASH_LINE) as *const libc::c_void;
+        libc::write(1, line, CRASH_LINE_LEN);
+        libc::_exit(1);
+    }
+}
+
+/// Arms the crash guard for `property`; the replay goes to `<root>/replays/<property>-crash.json`.
+pub fn crash_guard(root: &std::path::Path, property: &str) {
+    crash_guard_tagged(root, property, "crash")
+}
+
+pub fn crash_guard_tagged(root: &std::path::Path, property: &str, tag: &str) {
+    let dir = root.join("replays");
+    let _ = std::fs::create_dir_all(&dir);
+    let path = dir.join(format!("{}-{}.json", property, tag));
+    let p = path.to_string_lossy().into_owned();
+    let line = format!("VIOLATION property={} replay={}\n", property, p);
+    // SAFETY: written once before any explored execution starts.
+    unsafe {
+        let pb = p.as_bytes();
+        let dst = std::ptr::addr_of_mut!(CRASH_PATH) as *mut u8;
+        for (i, b) in pb.iter().take(510).enumerate() {
+            *dst.add(i) = *b;
+        }
+        *dst.add(pb.len().min(510)) = 0;
+        let lb = line.as_bytes();
+        let dst = std::ptr::addr_of_mut!(CRASH_LINE) as *mut u8;
+        for (i, b) in lb.iter().take(760).enumerate() {
+            *dst.add(i) = *b;
+        }
+        CRASH_LINE_LEN = lb.len().min(760);
+        let mut sa: libc::sigaction = std::mem::zeroed();
+        sa.sa_sigaction = crash_handler as usize;
+        libc::sigemptyset(&mut sa.sa_mask);
+        sa.sa_flags = 0;
+        libc::sigaction(libc::SIGABRT, &sa, std::ptr::null_mut());
+        libc::sigaction(libc::SIGSEGV, &sa, std::ptr::null_mut());
+        libc::sigaction(libc::SIGBUS, &sa, std::ptr::null_mut());
+        libc::sigaction(libc::SIGILL, &sa, std::ptr::null_mut());
+    }
+    CRASH_ARMED.store(true, std::sync::atomic::Ordering::SeqCst);
+}
